@@ -162,8 +162,8 @@ def byline_rows(idx, nlines=3, scenario="plain", collect=False, members=2):
         "._consider_line": consider,
         ".track_line": track,
         # a member's collect() projection is that member's own: the line the next member considers and the line the caller gets stay the reader's
-        "._limit_unmatched": lambda i, c, r, a, k: Residual(f"limited[{getattr(r, 'name', r)}]({a[0].text if isinstance(a[0], Residual) else a[0]})"),
-        ".limit_collection": lambda i, c, r, a, k: Residual(f"limited[{getattr(r, 'name', r)}]({a[0].text if isinstance(a[0], Residual) else a[0]})"),
+        "._limit_unmatched": lambda i, c, r, a, k: Residual(f"limited[{getattr(r, 'name', getattr(r, 'text', r))}]({a[0].text if isinstance(a[0], Residual) else a[0]})"),
+        ".limit_collection": lambda i, c, r, a, k: Residual(f"limited[{getattr(r, 'name', getattr(r, 'text', r))}]({a[0].text if isinstance(a[0], Residual) else a[0]})"),
         "self.results_manager.save": _rec("save"),
         "self.results_manager.complete_run": _rec("complete_run", keep_kwargs=True),
         "self.clear_run_coordination": _rec("clear_run_coordination"),
@@ -174,7 +174,9 @@ def byline_rows(idx, nlines=3, scenario="plain", collect=False, members=2):
         handlers[f"res{j}.append"] = (lambda i, c, r, a, k, j=j: i.record_call("collected", (f"cp{j}", a[0].text if isinstance(a[0], Residual) else str(a[0]))))
     out = []
     for agree in (False, True):
-        it = Interp(idx, types={"self": "CsvPaths"}, unknown_calls="residual", handlers=handlers, inline_all={"CsvPaths"},
+        types = {"self": "CsvPaths"}
+        types.update({f"cp{j}": "CsvPath" for j in range(members)})   # (a method of the member that the reference tree does not have is followed)
+        it = Interp(idx, types=types, unknown_calls="residual", handlers=handlers, inline_all={"CsvPaths"},
                     domains={"self._stop_all": [False], "self._fail_all": [False]})
         store = {"self._skip_all": False, "self._advance_all": 0}
         for j in range(members):
